@@ -323,6 +323,19 @@ class Program:
         self.by_id = facts.by_id
         self._build_closure_info()
         self._build_callgraph()
+        # private acquisition helpers: `fn locked<T>(m: &Mutex<T>) -> MutexGuard<'_, T> { m.lock().unwrap() }` — a call
+        # of one is a lock acquisition at the call site (the guard class is read off the call's own result type there)
+        self.acq_helpers = set()
+        for g in self.bodies:
+            if g.is_closure or g.j.get('reachable', g.is_pub) or g.arg_count < 1 or not is_guard_ty(g.locals[0]['ty']):
+                continue
+            locks = [c for c in g.live_calls if c.callee in LOCK_CALLS]
+            others = [c for c in g.live_calls if c.ruid is not None]
+            if len(locks) == 1 and not others:
+                self.acq_helpers.add(g.id)
+
+    def is_lock_call(self, c):
+        return c.callee in LOCK_CALLS or (c.ruid is not None and c.ruid in self.acq_helpers)
 
     # -- closures / fn items: where are they created, do they escape into a dyn Fn, or are
     #    they passed to a call (then: assumed invoked by that call at that site)
